@@ -37,6 +37,12 @@ def cases(tier, seed):
                         ["--scheduler=" + POLICIES[(seed + si) % 8], "--threads=%d" % (16 if si % 2 == 0 else 8), "--mode=large",
                          "--shape=%d" % sh, "--seed=%d" % (seed * 1000 + n)], cls="large:%s" % ("2^31..2^32" if sh < 2**32 else ">=2^32"),
                         slots=17, timeout=400))
+    # the largest value of the shape's own type: the end of the last chunk is one past it (int: 2^31-1, unsigned: 2^32-1)
+    for sh, typ in ((2**31 - 1, 0), (2**32 - 1, 1)):
+        n += 1
+        out.append(Case("plain", "c11_bulk",
+                        ["--scheduler=" + POLICIES[(seed + n) % 8], "--threads=%d" % (16 if n % 2 == 0 else 8), "--mode=large", "--shape=%d" % sh, "--type=%d" % typ,
+                         "--seed=%d" % (seed * 1000 + n)], cls="large:type-max", slots=17, timeout=400))
     for mode in ("small", "boundary"):
         n += 1
         out.append(Case("asan", "c11_bulk", ["--scheduler=" + POLICIES[(seed + 2) % 8], "--threads=4", "--mode=" + mode, "--bind=1",
